@@ -157,6 +157,25 @@ theorem runS_bound : ∀ (acts : List Act) (s s' : St), (∀ a ∈ acts, a ∈ s
       obtain ⟨d2, e2⟩ := runS_bound as s1 s' (fun b hb => hall b (by simp [hb])) h
       exact ⟨by simp only [List.length_cons]; omega, e2.trans e1⟩
 
+theorem stepS_step (s s' : St) (a : Act) (h : stepS s a = some s') : step s a = some s' := by
+  unfold stepS at h
+  split at h
+  · split at h
+    · cases h
+    · exact h
+  · exact h
+
+theorem runS_run : ∀ (acts : List Act) (s s' : St), runS s acts = some s' → run s acts = some s'
+  | [], s, s', h => by simpa [runS, run] using h
+  | a :: as, s, s', h => by
+    simp only [runS] at h
+    cases hs : stepS s a with
+    | none => simp [hs] at h
+    | some s1 =>
+      simp only [hs] at h
+      simp only [run, stepS_step s s1 a hs]
+      exact runS_run as s1 s' h
+
 /-- **C18 (the stop path is short and has one end).** From any state in which a stop was requested: every run of stop-path
 actions has at most six steps, and a run that cannot be continued has reached `finished`. -/
 theorem C18_every_stop_run_ends_finished (s : St) (hstop : s.stop = true) (acts : List Act) (hacts : ∀ a ∈ acts, a ∈ stopActs)
